@@ -120,6 +120,10 @@ type RaftNode struct {
 
 	log log.Logger
 
+	// applyMu makes an insertion (in-memory computation + store write)
+	// atomic with respect to queries, backups and state transfer.
+	applyMu sync.RWMutex
+
 	sync.Mutex
 	closed bool
 	done   chan struct{}
